@@ -392,8 +392,8 @@ impl TypedScenario for C08E2E {
     }
     fn budget(&self, tier: Tier) -> usize {
         match (tier, self.faulty) {
-            (Tier::Quick, false) => 3000,
-            (Tier::Quick, true) => 1500,
+            (Tier::Quick, false) => 8000,
+            (Tier::Quick, true) => 3000,
             (Tier::Thorough, false) => 1_500_000,
             (Tier::Thorough, true) => 500_000,
         }
